@@ -725,26 +725,40 @@ Proof.
   intros [HG Ho] Hd Hk. unfold accept.
   set (g := mkreg r tok (s_gidctr s) con PWait (-1) None false).
   match goal with |- context [if s_gate ?x then _ else _] => set (s2 := x) end.
-  assert (W : forall g', wirel g' s2 = wirel g' s) by (intros; unfold wirel; subst s2; fsimpl; rewrite !sends_cons_other by discriminate; reflexivity).
+  assert (Er : s_regs s2 = s_regs s ++ [g]) by reflexivity.
+  assert (Ec : s_gidctr s2 = s_gidctr s + 1) by reflexivity.
+  assert (Ep : s_prod s2 = s_prod s) by reflexivity.
+  assert (Eb : s_backlog s2 = s_backlog s) by reflexivity.
+  assert (Ed : s_down s2 = s_down s) by reflexivity.
+  assert (Ex : s_exch s2 = s_exch s) by reflexivity.
+  assert (Epg : s_piggy s2 = s_piggy s) by reflexivity.
+  assert (W : forall g', wirel g' s2 = wirel g' s).
+  { intros. unfold wirel. replace (sends (s_hist s2)) with (sends (s_hist s)) by reflexivity. reflexivity. }
+  clearbody s2.
+  assert (Pl : forall g', prodl g' s2 = prodl g' s) by (intros; unfold prodl; rewrite Ep; reflexivity).
+  assert (Ql : forall g', queuel g' s2 = queuel g' s) by (intros; unfold queuel; rewrite Eb; reflexivity).
   assert (P0 : prodl (s_gidctr s) s = []).
   { apply nil_if_empty. intros m Hm. apply prodl_In in Hm as [Hm Hg]. pose proof (g_prng s HG m Hm). lia. }
   assert (G2 : GI s2).
-  { pose proof HG as [H1 H2 H3 H4 H5 H6 H7 H8 H9 H10 H11]. subst s2. constructor; fsimpl; try assumption.
+  { pose proof HG as [H1 H2 H3 H4 H5 H6 H7 H8 H9 H10 H11]. constructor; rewrite ?Er, ?Ec, ?Ep, ?Eb, ?Ed; try assumption.
     - rewrite map_app. apply NoDup_snoc; [exact H1|]. intros Hi. apply in_map_iff in Hi as [y [Hy Hi]]. pose proof (H2 y Hi). cbn in Hy. lia.
     - intros g0 Hg0. apply in_app_iff in Hg0 as [Hg0|[<-|[]]]; [pose proof (H2 g0 Hg0); lia | cbn; lia].
     - rewrite map_app. apply NoDup_snoc_gen; [exact H3|]. intros Hi. apply in_map_iff in Hi as [y [Hy Hi]]. apply (Hk y Hi). exact Hy.
     - intros m Hm. pose proof (H4 m Hm). lia.
+    - intros g' Hg'. rewrite Pl, W, Ql. apply (H5 g' Hg').
+    - intros Hd' r' e He Hr. unfold has_exchange. rewrite Ex. apply (H6 Hd r' e); [rewrite <- Eb; exact He | exact Hr].
     - intros Hd'. rewrite Hd in Hd'. discriminate.
+    - intros g' Hg'. rewrite Pl. apply (H10 g' Hg').
     - lia. }
   assert (HF : FIx (g_gid g) s2).
-  { split; [exact G2|]. intros g0 Hg0 Hne. subst s2. fsimpl. apply in_app_iff in Hg0 as [Hg0|[<-|[]]]; [|exfalso; apply Hne; reflexivity].
+  { split; [exact G2|]. intros g0 Hg0 Hne. rewrite Er in Hg0. apply in_app_iff in Hg0 as [Hg0|[<-|[]]]; [|exfalso; apply Hne; reflexivity].
     destruct (Ho g0 Hg0) as [Ro Po]. split; [|exact Po].
-    eapply (sameG_but_regs_RegOK None s); [reflexivity | reflexivity | intros; apply W | apply piggy_shrinks_refl; reflexivity | apply (g_rng s HG); exact Hg0 | exact Ro]. }
+    apply (sameG_but_regs_RegOK None s s2); [exact Ep | exact Eb | intros; apply W | apply piggy_shrinks_refl; exact Epg | apply (g_rng s HG); exact Hg0 | exact Ro]. }
   assert (Hs : statics s2 g).
-  { split; [exists g; split; [subst s2; fsimpl; apply in_or_app; right; left; reflexivity | reflexivity]|].
-    intros g0 Hg0 E. subst s2. fsimpl. apply in_app_iff in Hg0 as [Hg0|[<-|[]]]; [|tauto]. pose proof (g_rng s HG g0 Hg0). cbn in E. lia. }
+  { split; [exists g; split; [rewrite Er; apply in_or_app; right; left; reflexivity | reflexivity]|].
+    intros g0 Hg0 E. rewrite Er in Hg0. apply in_app_iff in Hg0 as [Hg0|[<-|[]]]; [|tauto]. pose proof (g_rng s HG g0 Hg0). cbn in E. lia. }
   assert (R : RegOK None s2 g).
-  { assert (P2 : prodl (g_gid g) s2 = []) by exact P0.
+  { assert (P2 : prodl (g_gid g) s2 = []) by (rewrite Pl; exact P0).
     destruct (g_f1 s2 G2 (g_gid g) ltac:(cbn; apply (g_ctr s HG))) as [D HD]. rewrite P2 in HD. symmetry in HD.
     apply app_eq_nil in HD as [W0 HD]. apply app_eq_nil in HD as [Q0 _].
     constructor; rewrite ?P2, ?W0, ?Q0; auto.
@@ -796,16 +810,17 @@ Qed.
 
 (* ------------------------------------------------------------------ events *)
 Lemma task_entry s g : FI None s -> In g (s_regs s) -> FIx (g_gid g) s /\ statics s g /\ RegOK None s g /\ PFok g.
-Proof. intros H Hg. pose proof H as [HG Ho]. destruct (Ho g Hg). repeat split; auto; [apply FI_to_FIx; exact H | exists g; tauto | apply (statics_of_In s g HG Hg)]. Qed.
+Proof. intros H Hg. pose proof H as [HG Ho]. destruct (Ho g Hg) as [Ro Po].
+  split; [apply FI_to_FIx; exact H | split; [apply (statics_of_In s g HG Hg) | split; assumption]]. Qed.
 
 Lemma trigger_FI s x tv l : FI None s -> FI None (trigger s x tv l).
 Proof. intros H. unfold trigger. destruct (find_reg s x) as [g|] eqn:E; [|exact H]. apply find_reg_In in E as [E _].
-  destruct (task_entry s g H E) as (A & B & C & D). apply (put_back s g); auto. destruct (g_phase g); exact D. Qed.
+  destruct (task_entry s g H E) as (A & B & C & D). apply (put_back s g); auto. Qed.
+Lemma trigger_all_FI tv l order : forall s, FI None s -> FI None (fold_left (fun s gid => trigger s gid tv l) order s).
+Proof. induction order as [|x o IH]; intros s H; cbn [fold_left]; [exact H|]. apply IH, trigger_FI, H. Qed.
 Lemma trigger_burst_FI order burst : forall s, FI None s -> FI None (trigger_burst order burst s).
 Proof. unfold trigger_burst. induction burst as [|tb bs IH]; intros s H; cbn [fold_left]; [exact H|]. apply IH.
-  assert (H1 : FI None (set_version s (s_version s + 1))) by (apply (FI_frame None s); [sameG | apply piggy_shrinks_refl; reflexivity | exact H]).
-  revert H1. generalize (set_version s (s_version s + 1)). induction order as [|x o IHo]; intros s0 H0; cbn [fold_left]; [exact H0|].
-  apply IHo. apply trigger_FI. exact H0. Qed.
+  apply trigger_all_FI. apply (FI_frame None s); [sameG | apply piggy_shrinks_refl; reflexivity | exact H]. Qed.
 Lemma wake_FI l : forall s, FI None s -> FI None (wake l s).
 Proof. unfold wake. induction l as [|x l IH]; intros s H; cbn [fold_left]; [exact H|]. apply IH.
   destruct (find_reg s x) as [g|] eqn:E; [|exact H]. apply find_reg_In in E as [E _].
